@@ -95,8 +95,17 @@ SCOPE = (
     "irregular t) of seeded series of length 8..40 (the values of legendre_coordinates are not "
     "judged).  Rejections (checks '<Class>/rejects/...'): 6 (thorough 30) seeded integer series of "
     "length 3..8: every class without any threshold / rate argument, joint plots / networks of series "
-    "of different lengths (either one shorter), inter-system networks of a 1-d and a 2-d series must "
-    "raise instead of constructing an object."
+    "of different lengths (either one shorter) or with |lag| > length, inter-system networks of a 1-d and a 2-d series must "
+    "raise instead of constructing an object.  Sampling helpers (checks bootstrap_distance_matrix/... "
+    "and threshold_from_recurrence_rate_fast/...): 12 (60) seeded float32 series of length 4..43 (1-3 "
+    "components or embedded) x metric: every one of M in {1,7,200} bootstrap samples is the distance of "
+    "two of the given states under the stated metric (1e-12 relative); the fast rate threshold for "
+    "rate in {0,0.3,0.77,1} with rr_precision in {0.5,1,2} and for rate 0.5 with the default precision "
+    "is an entry of the distance matrix (the random numbers are not referred to).  "
+    "set_adaptive_neighborhood_size(k, order=...) (checks RecurrencePlot/adaptive_neighborhood_size[order]/"
+    "...): every processing order (all permutations for 2..4 states, 3 random + the reversed order for "
+    "10 (40) seeded series of 5..34 points, given as int32 / int64 array) yields a binary "
+    "symmetric matrix with at least min(k, N-1) neighbours per state."
 )
 RULE = (
     "one evaluation = one contract clause group on one constructed object (sizes, embedding, "
@@ -873,6 +882,8 @@ def run_rejects(rep, C, w):
     kw = dict(silence_level=3)
     if what != "no-threshold":
         kw["threshold"] = thr
+    if "lag" in w:
+        kw["lag"] = int(w["lag"])
     try:
         obj = cls(x, y, **kw) if two else cls(x, **kw)
     except Exception:                                            # noqa: BLE001
@@ -885,7 +896,93 @@ def run_rejects(rep, C, w):
     rep.fail(f"{cname}/rejects/{what}", w, f"constructed an object (matrix {R}) instead of raising")
 
 
-RUNNERS = {"rejects": run_rejects, "normalize_time_series": run_normstatic, "RecurrencePlot": run_rp, "RecurrenceNetwork": run_rp, "CrossRecurrencePlot": run_crp,
+def run_sampled(rep, C, w):
+    """Sampling helpers of RecurrencePlot: bootstrap_distance_matrix(embedding, metric, M) returns M
+    distances of pairs of the given states under the metric; threshold_from_recurrence_rate_fast
+    (D, rate, rr_precision) returns a quantile of int(rr_precision * D.size) sampled entries of D.
+    Without reference to the random numbers: every returned value must be the distance (under the
+    stated metric) of some pair of states / some entry of D, for every rate in [0, 1]."""
+    RP = C["RecurrencePlot"]
+    x = np.array(w["x"], dtype=np.float64)
+    st = states_of(x, w.get("dim"), w.get("tau"))
+    metric = w["metric"]
+    D = S.distance_matrix(st, st, metric)
+    vals = np.unique(D)
+    scale = max(1.0, float(vals.max()))
+
+    def member(v):
+        k = np.searchsorted(vals, v)
+        near = [vals[j] for j in (k - 1, k) if 0 <= j < len(vals)]
+        return any(abs(v - u) <= 1e-12 * scale for u in near)
+
+    rep.case(repr(("sampled", w["x"], w.get("dim"), w.get("tau"), metric, w["M"])), nontrivial=len(vals) > 2)
+    np.random.seed(int(w["rseed"]) % (2 ** 32))
+    try:
+        got = np.asarray(RP.bootstrap_distance_matrix(np.array(st, dtype=np.float64), metric, w["M"]), dtype=float)
+    except Exception as e:                                       # noqa: BLE001
+        rep.fail("bootstrap_distance_matrix/applicable", w, f"{type(e).__name__}: {e}")
+        got = None
+    if got is not None:
+        bad = [float(v) for v in got if not member(float(v))]
+        if got.shape != (int(w["M"]),) or bad:
+            rep.fail("bootstrap_distance_matrix/samples-are-distances", w,
+                     f"shape {got.shape}; values that are no {metric} distance of two states: {bad[:5]}; "
+                     f"distances present: {vals[:8].tolist()}...")
+        elif len(vals) > 2 and w["M"] >= 50 * len(vals) and len(np.unique(np.round(got, 9))) < 2:
+            rep.fail("bootstrap_distance_matrix/samples-are-distances", w, "all samples identical")
+    for rate, prec in w["rates"]:
+        rep.case()
+        wit = dict(w, rates=[[rate, prec]])
+        try:
+            thr = RP.threshold_from_recurrence_rate_fast(D.copy(), rate, *([] if prec is None else [prec]))
+        except Exception as e:                                   # noqa: BLE001
+            what = "rate-1" if rate == 1.0 else ("default-precision" if prec is None else "general")
+            rep.fail(f"threshold_from_recurrence_rate_fast/applicable[{what}]", wit, f"{type(e).__name__}: {e}")
+            continue
+        if not member(float(thr)):
+            rep.fail("threshold_from_recurrence_rate_fast/is-a-sampled-distance", wit,
+                     f"returned {thr!r}, not an entry of the distance matrix")
+
+
+def run_adaptive_order(rep, C, w):
+    """set_adaptive_neighborhood_size(k, order=...): the processing order is the caller's choice; for
+    every order (a permutation of the states, given as an int32 or an int64 array) the matrix
+    is binary, symmetric and gives every state at least min(k, N-1) neighbours other than itself."""
+    RP = C["RecurrencePlot"]
+    x = np.array(w["x"], dtype=np.float64)
+    metric = w["metric"]
+    kw = dict(metric=metric, silence_level=3)
+    if w.get("dim"):
+        kw.update(dim=w["dim"], tau=w["tau"])
+    N = len(states_of(x, w.get("dim"), w.get("tau")))
+    obj = None
+    for oi, order in enumerate(w["orders"]):
+        for k in w["sizes"]:
+            wit = dict(w, orders=[order], sizes=[k])
+            rep.case(repr(("adaptive-order", w["x"], w.get("dim"), w.get("tau"), metric, order, k)), nontrivial=N > 2)
+            arg = np.array(order, dtype=(np.int32, np.int64)[oi % 2])     # documented: 1D array of int32
+            P = "RecurrencePlot/adaptive_neighborhood_size[order]"
+            try:
+                if obj is None:
+                    obj = RP(x, threshold=0.123, **kw)
+                obj.set_adaptive_neighborhood_size(k, order=arg)
+                R = np.asarray(obj.recurrence_matrix())
+            except Exception as e:                               # noqa: BLE001
+                rep.fail(f"{P}/constructible", wit, f"{type(e).__name__}: {e}")
+                obj = None
+                continue
+            if R.shape != (N, N) or not is_binary(R):
+                rep.fail(f"{P}/matrix-binary", wit, f"shape {R.shape} values {np.unique(R).tolist()}")
+                continue
+            if not (R == R.T).all():
+                rep.fail(f"{P}/symmetric", wit, f"got {R.tolist()}")
+            nb = (R.sum(axis=1) - np.diag(R)).tolist()
+            need = min(int(k), N - 1)
+            if any(v < need for v in nb):
+                rep.fail(f"{P}/at-least-k-neighbours", wit, f"neighbours {nb} < {need}: {R.tolist()}")
+
+
+RUNNERS = {"adaptive_order": run_adaptive_order, "sampled": run_sampled, "rejects": run_rejects, "normalize_time_series": run_normstatic, "RecurrencePlot": run_rp, "RecurrenceNetwork": run_rp, "CrossRecurrencePlot": run_crp,
            "JointRecurrencePlot": run_jrp, "JointRecurrenceNetwork": run_jrp,
            "InterSystemRecurrenceNetwork": run_isrn}
 
@@ -1283,8 +1380,39 @@ def cases(tier, seed):
         for target in ("JointRecurrencePlot", "JointRecurrenceNetwork"):
             yield {"cls": "rejects", "target": target, "what": "unequal-lengths", "x": xs, "y": ys[:m]}
             yield {"cls": "rejects", "target": target, "what": "unequal-lengths", "x": xs[:m], "y": ys}
+            # documented: "Delay value (lag) must not exceed length of time series"
+            yield {"cls": "rejects", "target": target, "what": "lag-exceeds-length", "x": xs, "y": ys,
+                   "lag": (n + 1 + int(rrng.randint(3))) * (1 if k % 2 else -1)}
         yield {"cls": "rejects", "target": "InterSystemRecurrenceNetwork", "what": "unequal-dimensions",
                "x": [[v] for v in xs], "y": [[v, v + 1.0] for v in ys[:m + 1]]}
+    # ---- sampling helpers: every sample is a distance under the stated metric
+    for k in range(60 if T else 12):
+        n = 4 + int(rrng.randint(40))
+        emb = (None, (2, 1), (3, 2))[k % 3] if n >= 8 else None
+        d = None if emb else (None, 2, 3)[(k // 3) % 3]
+        xs = (np.float32(rrng.standard_normal((n, d) if d else n))).astype(np.float64).tolist()
+        w = {"cls": "sampled", "x": xs, "metric": S.METRICS[k % 3], "M": int(rrng.choice([1, 7, 200])),
+             "rseed": int(rrng.randint(1, 2 ** 31 - 1)),
+             "rates": [[0.0, 0.5], [0.3, 1.0], [0.77, 2.0], [1.0, 0.5], [0.5, None]]}
+        if emb:
+            w.update(dim=emb[0], tau=emb[1])
+        yield w
+    # ---- adaptive neighbourhood size with a caller-chosen processing order
+    for n in (2, 3, 4):
+        xs = [ALPH[(i * i + n) % 3] + i for i in range(n)]
+        yield {"cls": "adaptive_order", "x": xs, "metric": "supremum", "sizes": sorted({1, 2, n - 1, n + 1}),
+               "orders": [list(p) for p in itertools.permutations(range(n))]}
+    for k in range(40 if T else 10):
+        n = 5 + int(rrng.randint(30))
+        emb = (None, (2, 1), (3, 2))[k % 3] if n >= 9 else None
+        xs = (np.float32(rrng.standard_normal(n))).astype(np.float64).tolist()
+        ns = n - (emb[0] - 1) * emb[1] if emb else n
+        w = {"cls": "adaptive_order", "x": xs, "metric": S.METRICS[k % 3],
+             "sizes": sorted({1, 3, max(1, ns // 2), ns - 1}),
+             "orders": [rrng.permutation(ns).tolist() for _ in range(3)] + [list(range(ns - 1, -1, -1))]}
+        if emb:
+            w.update(dim=emb[0], tau=emb[1])
+        yield w
     # ---- random larger with normalize=True
     for k in range(nr):
         n = 6 + rng.randint(35)
